@@ -36,6 +36,80 @@ func main() {
 	files, _ := filepath.Glob(filepath.Join(dir, "*.go"))
 	enc := json.NewEncoder(os.Stdout)
 	n := 0
+	// set 5: siblings — fields of one struct with the same type, methods of one receiver with the same signature
+	fieldSib := map[string][]string{}  // field name -> other fields of the same struct and type
+	methodSib := map[string][]string{} // method name -> other methods of the same receiver and signature
+	if set == "5" {
+		fieldCount := map[string]int{}
+		type fgroup struct{ names []string }
+		var groups [][]string
+		sigGroups := map[string][]string{}
+		methCount := map[string]int{}
+		for _, fn := range files {
+			if strings.HasSuffix(fn, "_test.go") {
+				continue
+			}
+			src, _ := os.ReadFile(fn)
+			fset := token.NewFileSet()
+			f, err := parser.ParseFile(fset, fn, src, 0)
+			if err != nil {
+				continue
+			}
+			text := func(a, b token.Pos) string { return string(src[fset.Position(a).Offset:fset.Position(b).Offset]) }
+			ast.Inspect(f, func(nd ast.Node) bool {
+				st, ok := nd.(*ast.StructType)
+				if !ok || st.Fields == nil {
+					return true
+				}
+				byType := map[string][]string{}
+				for _, fl := range st.Fields.List {
+					ty := text(fl.Type.Pos(), fl.Type.End())
+					for _, nm := range fl.Names {
+						byType[ty] = append(byType[ty], nm.Name)
+						fieldCount[nm.Name]++
+					}
+				}
+				for _, g := range byType {
+					if len(g) >= 2 {
+						groups = append(groups, g)
+					}
+				}
+				return true
+			})
+			for _, d := range f.Decls {
+				fd, ok := d.(*ast.FuncDecl)
+				if !ok || fd.Recv == nil || len(fd.Recv.List) == 0 {
+					continue
+				}
+				sig := text(fd.Recv.List[0].Type.Pos(), fd.Recv.List[0].Type.End()) + "|" + text(fd.Type.Params.Pos(), fd.Type.End())
+				// parameter names do not matter: keep the types only (crudely: drop identifiers before a space)
+				sigGroups[sig] = append(sigGroups[sig], fd.Name.Name)
+				methCount[fd.Name.Name]++
+			}
+		}
+		for _, g := range groups {
+			for i, a := range g {
+				if fieldCount[a] != 1 {
+					continue
+				}
+				b := g[(i+1)%len(g)]
+				if fieldCount[b] == 1 {
+					fieldSib[a] = append(fieldSib[a], b)
+				}
+			}
+		}
+		for _, g := range sigGroups {
+			if len(g) < 2 {
+				continue
+			}
+			for i, a := range g {
+				b := g[(i+1)%len(g)]
+				if methCount[a] == 1 && methCount[b] == 1 {
+					methodSib[a] = append(methodSib[a], b)
+				}
+			}
+		}
+	}
 	for _, fn := range files {
 		base := filepath.Base(fn)
 		if strings.HasSuffix(base, "_test.go") || strings.HasPrefix(base, "pty_") || strings.HasPrefix(base, "utils_") || base == "version.go" || base == "drag.go" {
@@ -72,7 +146,21 @@ func main() {
 					if set == "4" {
 						pfx = "q"
 					}
+					if set == "5" {
+						pfx = "w"
+					}
 					enc.Encode(mutant{ID: fmt.Sprintf("%s%04d", pfx, n), File: base, Line: fset.Position(start).Line, Func: fname, Kind: kind, Start: s, End: e, Repl: repl, Text: strings.ReplaceAll(txt, "\n", " ")})
+				}
+				if set == "5" {
+					if sel, ok := nd.(*ast.SelectorExpr); ok {
+						for _, sib := range fieldSib[sel.Sel.Name] {
+							emit("field-swap", sel.Sel.Pos(), sel.Sel.End(), sib)
+						}
+						for _, sib := range methodSib[sel.Sel.Name] {
+							emit("method-swap", sel.Sel.Pos(), sel.Sel.End(), sib)
+						}
+					}
+					return true
 				}
 				if set == "4" {
 					text := func(a, b token.Pos) string {
